@@ -1,4 +1,5 @@
 import RocflModel.Lemmas.StageLemmas
+import RocflModel.Lemmas.ReadForever
 /-
   C14 — versions advance one at a time and a stale commit is refused.
 
@@ -138,5 +139,23 @@ theorem C14_earlier_versions_kept (r : Repo) (id : Str) (m : Meta) (keep : Diges
       · simp only [h0, if_false]
         rw [List.getElem?_set_ne]
         omega
+
+/-- **no committed version is ever overwritten** — for every history: whenever a commit succeeds on an
+    object that already exists in a reachable repository, every version the object had is, entry for
+    entry, still the version the new inventory records, and the head advanced by exactly one -/
+theorem C14_reachable_commit_keeps_versions (spec : SpecV) (ops : List (Op × Str)) (id : Str) (m : Meta)
+    (keep : Digest → List CPath) (hasRoot : Bool) (old : Obj)
+    (hm : AL.get (run spec ops).main id = some old)
+    (h : (commit (run spec ops) id m keep hasRoot).1 = .ok ()) :
+    ∃ new, AL.get (commit (run spec ops) id m keep hasRoot).2.main id = some new ∧
+      new.inv.head.number = old.inv.head.number + 1 ∧
+      ∀ k, k ≤ old.inv.head.number → new.inv.getVersion k = old.inv.getVersion k := by
+  obtain ⟨hok, hext⟩ := reachable_ext spec ops
+  rcases commit_cases (run spec ops) id m keep hasRoot with ⟨e, he, _⟩ | ⟨o, hs, _, _, _, heq⟩
+  · rw [he] at h; cases h
+  · have hstep := prepareCommit_step m keep (staged_get_ok hok hs)
+    have hex2 : Extends (prepareCommit o m keep) old := hstep.extends (hext.ext id o old hs hm)
+    refine ⟨installed (some old) (prepareCommit o m keep), ?_, hex2.head, hex2.versions⟩
+    rw [heq]; simp only; rw [AL.get_insert_self, hm]
 
 end Rocfl.Theorems.C14
